@@ -7,6 +7,15 @@ def repo_commits(prefix):
     return [l.split()[0] for l in out if l.split(" ", 1)[1].startswith(prefix)]
 
 CHECKS = {
+ "C01": ("generated producer scripts x driven consumer streams x thread schedules on the five Uni channel kinds; delivery-ledger oracle (exactly-once, integrity, rejected inputs handed back untouched)",
+         "Exploration: thousands of generated (workload, schedule) pairs per run on all five Uni kinds, BUFFER_SIZE 2/4/8, MAX_STREAMS 1/2/4, counters next to the u32 wrap, every entry point (send, send_with, send_with_async, reserve+send_reserved), under a scheduler that owns every interleaving of the library's atomic operations and of its plain slot accesses; verdict by an implementation-independent ledger. Nothing is proved; small sizes, SC interleavings.",
+         "Trusted: the verif shim, the scheduler, the adapters. crossbeam's internals are not instrumented (its operations are atomic under the scheduler; interleavings between them are exposed by yield points).", "6 C01"),
+ "C03": ("generated producer scripts x fixed listener sets x thread schedules on the six Multi channel kinds; per-listener ledger + same-allocation oracle",
+         "Exploration: generated (workload, schedule) pairs on all six Multi kinds (incl. the mmap log), 1..3 listeners, 1..3 producers, every entry point the kind implements; per-listener exactly-once + order + payload address identity across listeners.",
+         "Arc kinds are kept below BUFFER_SIZE events (they wait by documented design when full). SC interleavings only.", "6 C03"),
+ "C04": ("generated thread schedules over send / poll / park steps on all 11 channel kinds; quiescence oracle (parked stream + undelivered accepted event + no wake owed = lost wake-up), decided by the scheduler, no timeouts",
+         "Exploration: generated (workload, schedule) pairs on every Uni and Multi kind, MAX_STREAMS 1/2 with 1..MAX_STREAMS driven streams, 0..B events pending beforehand, 1..3 producers over every entry point, occasional waker replacement; 'eventually' is decided exactly as 'nothing can run any more'.",
+         "Streams are driven by the harness' own executor model (poll, park on Pending, re-poll on wake). SC interleavings only.", "6 C04"),
  # id: (technique, level text, level note, design ref)
  "C02": ("generated thread schedules + operation bursts on the two raw rings; Wing-Gong linearizability search vs bounded FIFO + interval rule for 'full'",
          "Exploration: thousands of generated (scenario, schedule) pairs per run on the raw rings at capacity 2/4 (incl. counters next to the u32 wrap), executed under a scheduler that owns every interleaving of the library's atomic operations; each history is decided exactly by an exhaustive linearizability search. Nothing is proved; small sizes, SC interleavings.",
